@@ -8,24 +8,29 @@ pub type Entry = (u64, u8);
 /// `#` comment carries, in its first two whitespace-separated columns, an NTP timestamp and
 /// the TAI-UTC offset in force from that instant.
 pub fn parse_iers_reference(bytes: &[u8]) -> Result<Vec<Entry>, String> {
-    let text = std::str::from_utf8(bytes).map_err(|e| format!("not UTF-8: {e}"))?;
+    // Byte-wise: comments are free text and need not even be valid UTF-8.
     let mut out = Vec::new();
-    for (ln, raw) in text.split('\n').enumerate() {
-        let line = raw.strip_suffix('\r').unwrap_or(raw);
+    // a byte order mark is not content
+    let bytes = bytes.strip_prefix(&[0xEF, 0xBB, 0xBF]).unwrap_or(bytes);
+    for (ln, raw) in bytes.split(|&b| b == b'\n').enumerate() {
+        let line = raw.strip_suffix(b"\r").unwrap_or(raw);
         // Blanks are not significant: neither in front of a data line or a comment, nor alone.
-        let line = line.trim_start_matches([' ', '\t']);
-        if line.is_empty() || line.starts_with('#') {
+        let start = line.iter().position(|&b| b != b' ' && b != b'\t').unwrap_or(line.len());
+        let line = &line[start..];
+        if line.is_empty() || line[0] == b'#' {
             continue;
         }
-        let mut cols = line.split(|c: char| c == ' ' || c == '\t').filter(|s| !s.is_empty());
+        let mut cols = line
+            .split(|&b| b == b' ' || b == b'\t')
+            .filter(|c| !c.is_empty());
         let ts = cols
             .next()
             .ok_or_else(|| format!("line {}: no first column", ln + 1))?;
         let dat = cols
             .next()
             .ok_or_else(|| format!("line {}: no second column", ln + 1))?;
-        let ts: u64 = dec(ts).ok_or_else(|| format!("line {}: bad timestamp {ts:?}", ln + 1))?;
-        let dat: u64 = dec(dat).ok_or_else(|| format!("line {}: bad offset {dat:?}", ln + 1))?;
+        let ts = std::str::from_utf8(ts).ok().and_then(dec).ok_or_else(|| format!("line {}: bad timestamp", ln + 1))?;
+        let dat = std::str::from_utf8(dat).ok().and_then(dec).ok_or_else(|| format!("line {}: bad offset", ln + 1))?;
         if dat > 255 {
             return Err(format!("line {}: offset {dat} out of range", ln + 1));
         }
